@@ -47,6 +47,14 @@ impl Members {
         }
     }
 }
+/// the same hex digits in another spelling: 0 as is, 1 upper case, 2 alternating case
+fn spell(root: &str, mode: u8) -> String {
+    match mode {
+        0 => root.to_string(),
+        1 => root.to_uppercase(),
+        _ => root.chars().enumerate().map(|(i, c)| if i % 2 == 0 { c.to_ascii_uppercase() } else { c }).collect(),
+    }
+}
 fn alloc_of(i: u64) -> u32 {
     [1u32, 2, 5, 10, 49, 100, 4294967295, 0][(i % 8) as usize]
 }
@@ -97,7 +105,7 @@ pub enum Case {
     /// HasMember on whitelist-merkletree instantiated with an arbitrary root string
     FlatRootQuery { root: String, label: String, member: String, proof: Vec<String> },
     /// HasMember on tiered-whitelist-merkletree: one list per stage, `nroots` of the roots stored
-    TieredQuery { lists: Vec<Members>, stages: Vec<StageSpec>, nroots: usize, #[serde(default)] upper: bool, at: u64, label: String, member: String, proof: Vec<String> },
+    TieredQuery { lists: Vec<Members>, stages: Vec<StageSpec>, nroots: usize, #[serde(default)] spelling: u8, at: u64, label: String, member: String, proof: Vec<String> },
     FlatHist { now: u64, init: FlatInit, ops: Vec<FlatOp> },
     TieredHist { now: u64, init: TieredInit, ops: Vec<TieredOp> },
     Leaf { stage: Option<u32>, sender: String, alloc: Option<u32> },
@@ -162,13 +170,13 @@ impl World {
         self.flat.insert(key, (addr.clone(), None));
         Ok(addr)
     }
-    fn tiered_for(&mut self, lists: &[Members], stages: &[StageSpec], nroots: usize, upper: bool) -> (Addr, Vec<std::rc::Rc<Built>>) {
-        let key = serde_json::to_string(&(lists, stages, nroots, upper)).unwrap();
+    fn tiered_for(&mut self, lists: &[Members], stages: &[StageSpec], nroots: usize, spelling: u8) -> (Addr, Vec<std::rc::Rc<Built>>) {
+        let key = serde_json::to_string(&(lists, stages, nroots, spelling)).unwrap();
         if let Some((a, b)) = self.tiered.get(&key) {
             return (a.clone(), b.clone());
         }
         let built: Vec<_> = lists.iter().map(|m| self.tree(true, m)).collect();
-        let roots: Vec<String> = built.iter().take(nroots).map(|b| if upper { b.root_hex().to_uppercase() } else { b.root_hex() }).collect();
+        let roots: Vec<String> = built.iter().take(nroots).map(|b| spell(&b.root_hex(), spelling)).collect();
         chain::set_time(&mut self.app, BASE);
         let init = TieredInit {
             roots,
@@ -271,7 +279,7 @@ fn run_case(w: &mut World, c: &Case) -> Outcome {
             if label == "own-uppercase-root" && r != Ok(true) {
                 viol.push((
                     "C14:flat-uppercase-root-never-matches".to_string(),
-                    format!("root given in upper-case hex passes instantiate, then the listed entry with its own proof answers {:?}", r),
+                    format!("root given in upper/mixed-case hex passes instantiate, then the listed entry with its own proof answers {:?}", r),
                 ));
             }
             let t = fold_table(false, member, proof);
@@ -279,8 +287,8 @@ fn run_case(w: &mut World, c: &Case) -> Outcome {
             hist.push(format!("flat:{}:{}", label, res_tag(&r)));
             Outcome { coq, viol, nontrivial: wf, hist, observed: format!("{:?}", r), steps: 1 }
         }
-        Case::TieredQuery { lists, stages, nroots, upper, at, label, member, proof } => {
-            let (addr, built) = w.tiered_for(lists, stages, *nroots, *upper);
+        Case::TieredQuery { lists, stages, nroots, spelling, at, label, member, proof } => {
+            let (addr, built) = w.tiered_for(lists, stages, *nroots, *spelling);
             chain::set_time(&mut w.app, *at);
             let r = has_member(&w.app, &addr, true, member, proof);
             let wf = proof.iter().all(|h| wellformed_hash(h, 16));
@@ -298,10 +306,10 @@ fn run_case(w: &mut World, c: &Case) -> Outcome {
                             viol.push(("C14:tiered-malformed-not-error".to_string(), format!("malformed proof element answered {:?}", r)));
                         }
                         if label == &format!("own-stage{}", i) && r != Ok(true) {
-                            if *upper {
+                            if *spelling != 0 {
                                 viol.push((
                                     "C14:tiered-uppercase-root-never-matches".to_string(),
-                                    format!("roots given in upper-case hex pass instantiate, then an entry of the active stage {} with its own proof answers {:?}", i, r),
+                                    format!("roots given in upper/mixed-case hex pass instantiate, then an entry of the active stage {} with its own proof answers {:?}", i, r),
                                 ));
                             } else {
                                 viol.push(("C14:tiered-member-rejected".to_string(), format!("entry of the active stage {} with its own proof answered {:?}", i, r)));
@@ -320,7 +328,7 @@ fn run_case(w: &mut World, c: &Case) -> Outcome {
             }
             let mut denoms = denom_ids();
             let t = fold_table(true, member, proof);
-            let roots: Vec<String> = built.iter().take(*nroots).map(|b| if *upper { b.root_hex().to_uppercase() } else { b.root_hex() }).collect();
+            let roots: Vec<String> = built.iter().take(*nroots).map(|b| spell(&b.root_hex(), *spelling)).collect();
             let coq = format!(
                 "CTwQuery {} {} {} {} {} {} {}",
                 coq_table(&t),
@@ -738,19 +746,25 @@ fn gen_cases(a: &Args) -> Vec<Case> {
         }
     }
     {
-        // a root supplied in upper-case hex is accepted by instantiate
+        // a root supplied in upper-case or mixed-case hex is accepted by instantiate; every
+        // listed entry must be accepted against it (fixed in /repo c2c314c)
         let ms = Members::Short { n: 5 }.list();
         let b = build_tree(false, &ms, None);
-        let up = b.root_hex().to_uppercase();
-        cases.push(Case::FlatRootQuery { root: up.clone(), label: "own-uppercase-root".into(), member: ms[1].clone(), proof: b.proof_hex(1) });
-        cases.push(Case::FlatRootQuery { root: up, label: "outsider-uppercase-root".into(), member: outsider.clone(), proof: b.proof_hex(1) });
-        {
-            let stages = three_stages(0); // one stage
-            let lists = vec![Members::Short { n: 5 }];
-            let bt = build_tree(true, &ms, None);
+        let bt = build_tree(true, &ms, None);
+        let stages = three_stages(0); // one stage
+        for mode in [1u8, 2] {
+            let r = spell(&b.root_hex(), mode);
+            for i in 0..ms.len() {
+                cases.push(Case::FlatRootQuery { root: r.clone(), label: "own-uppercase-root".into(), member: ms[i].clone(), proof: b.proof_hex(i) });
+                cases.push(Case::TieredQuery {
+                    lists: vec![Members::Short { n: 5 }], stages: stages.clone(), nroots: 1, spelling: mode, at: (stages[0].start + stages[0].end) / 2,
+                    label: "own-stage0".into(), member: ms[i].clone(), proof: bt.proof_hex(i),
+                });
+            }
+            cases.push(Case::FlatRootQuery { root: r.clone(), label: "outsider-uppercase-root".into(), member: outsider.clone(), proof: b.proof_hex(1) });
             cases.push(Case::TieredQuery {
-                lists, stages: stages.clone(), nroots: 1, upper: true, at: (stages[0].start + stages[0].end) / 2,
-                label: "own-stage0".into(), member: ms[2].clone(), proof: bt.proof_hex(2),
+                lists: vec![Members::Short { n: 5 }], stages: stages.clone(), nroots: 1, spelling: mode, at: (stages[0].start + stages[0].end) / 2,
+                label: "outsider-uppercase-root".into(), member: outsider.clone(), proof: bt.proof_hex(1),
             });
         }
         // the root is the digest of a single entry: empty proof
@@ -858,7 +872,7 @@ fn gen_cases(a: &Args) -> Vec<Case> {
             let mid = (stages[s].start + stages[s].end) / 2;
             for &i in &own {
                 cases.push(Case::TieredQuery {
-                    lists: lists.clone(), stages: stages.clone(), nroots: k, upper: false, at: mid,
+                    lists: lists.clone(), stages: stages.clone(), nroots: k, spelling: 0, at: mid,
                     label: format!("own-stage{}", s), member: bt.members[i].clone(), proof: bt.proof_hex(i),
                 });
             }
@@ -867,7 +881,7 @@ fn gen_cases(a: &Args) -> Vec<Case> {
             let near = |t: u64| t + 2 >= stages[s].start && t <= stages[s].end + 2;
             for (tl, t) in times.iter().filter(|(_, t)| a.thorough() || n <= 10 || near(*t)) {
                 cases.push(Case::TieredQuery {
-                    lists: lists.clone(), stages: stages.clone(), nroots: k, upper: false, at: *t,
+                    lists: lists.clone(), stages: stages.clone(), nroots: k, spelling: 0, at: *t,
                     label: format!("own-stage{}@{}", s, tl), member: bt.members[i].clone(), proof: bt.proof_hex(i),
                 });
             }
@@ -877,18 +891,18 @@ fn gen_cases(a: &Args) -> Vec<Case> {
             let off = rng.below(adv.len() as u64) as usize;
             for q in 0..take.min(adv.len()) {
                 let (lab, m, p) = adv[(off + q) % adv.len()].clone();
-                cases.push(Case::TieredQuery { lists: lists.clone(), stages: stages.clone(), nroots: k, upper: false, at: mid, label: lab, member: m, proof: p });
+                cases.push(Case::TieredQuery { lists: lists.clone(), stages: stages.clone(), nroots: k, spelling: 0, at: mid, label: lab, member: m, proof: p });
             }
         }
         // fewer roots than stages: the uncovered stage must never answer true
         if k >= 2 && n % 2 == 1 {
             let bt = &built[k - 1];
             cases.push(Case::TieredQuery {
-                lists: lists.clone(), stages: stages.clone(), nroots: k - 1, upper: false, at: (stages[k - 1].start + stages[k - 1].end) / 2,
+                lists: lists.clone(), stages: stages.clone(), nroots: k - 1, spelling: 0, at: (stages[k - 1].start + stages[k - 1].end) / 2,
                 label: "stage-without-root".into(), member: bt.members[0].clone(), proof: bt.proof_hex(0),
             });
             cases.push(Case::TieredQuery {
-                lists: lists.clone(), stages: stages.clone(), nroots: k - 1, upper: false, at: (stages[0].start + stages[0].end) / 2,
+                lists: lists.clone(), stages: stages.clone(), nroots: k - 1, spelling: 0, at: (stages[0].start + stages[0].end) / 2,
                 label: "own-stage0".into(), member: built[0].members[0].clone(), proof: built[0].proof_hex(0),
             });
         }
